@@ -113,3 +113,24 @@ var _ = pr.AutoF
 //@   ensures[center] w < availableWidth && eff == "center" ==> result == (availableWidth - w) / 2
 //@   ensures[end] w < availableWidth && eff == "end" ==> result == availableWidth - w
 //@   ensures[start] w < availableWidth && eff != "center" && eff != "end" ==> result == 0
+
+// CSS 2.1 §10.4: when the tentative used width exceeds max-width (then: is below
+// min-width) the width rules are applied AGAIN with that bound as the width and with the
+// computed values of the margins (auto margins are resolved afresh, not kept from the
+// first pass); max is handled before min, so min-width wins.
+//@ func handleMinMaxWidth$1
+//@   props C10
+//@   modifies anything
+//@   let b = box.Box()
+//@   requires box != nil
+//@   call function#2 assert b.Width == b.MaxWidth && b.MarginLeft == old(b.MarginLeft) && b.MarginRight == old(b.MarginRight)
+//@   call function#3 assert b.Width == b.MinWidth && b.MarginLeft == old(b.MarginLeft) && b.MarginRight == old(b.MarginRight)
+
+// likewise for heights (§10.7)
+//@ func handleMinMaxHeight$1
+//@   props C10
+//@   modifies anything
+//@   let b = box.Box()
+//@   requires box != nil
+//@   call function#2 assert b.Height == b.MaxHeight && b.MarginTop == old(b.MarginTop) && b.MarginBottom == old(b.MarginBottom)
+//@   call function#3 assert b.Height == b.MinHeight && b.MarginTop == old(b.MarginTop) && b.MarginBottom == old(b.MarginBottom)
